@@ -141,6 +141,21 @@ def gen_dist(rng, ns, mode=None, level=None):
 
 
 def gen_dists(rng, pool):
+    if rng.random() < 0.12:
+        # IOV "SAME": one symbolic block repeated for every occasion (shared parameter symbols), after an IIV block
+        m = rng.choice([1, 2])
+        nocc = rng.choice([2, 3]) if m == 1 else 2
+        tmpl = [[f'OI_{min(i, j)}_{max(i, j)}' for j in range(m)] for i in range(m)]
+        dists = [gen_dist(rng, pool[:rng.choice([1, 2])], mode='sym', level='IIV')]
+        used = len(dists[0]['names']) if dists[0]['k'] == 'J' else 1
+        for o in range(nocc):
+            ns = pool[used:used + m]
+            used += m
+            if m == 1:
+                dists.append({'k': 'N', 'name': ns[0], 'level': 'IOV', 'mean': '0', 'var': tmpl[0][0]})
+            else:
+                dists.append({'k': 'J', 'names': list(ns), 'level': 'IOV', 'mean': ['0'] * m, 'var': tmpl})
+        return dists
     nvar = rng.choice([1, 2, 3, 3, 4, 4, 5, 5, 6, 6])
     ns = pool[:nvar]
     if rng.random() < 0.3:
@@ -943,50 +958,78 @@ JTAGS = {
     51: 'create_joint_distribution random variables differ from model', 52: 'create_joint_distribution parameters differ from model',
     56: 'split_joint_distribution differs from model',
     53: 'a new covariance parameter is not named after the parameters of its two random variables',
+    59: 'create_joint_distribution(rvs=None) did not select the etas in collection order',
+    60: 'create_joint_distribution ended in an internal IndexError',
     54: 'names of the random variables not preserved', 55: 'a variance changed',
     57: 'split_joint_distribution dropped a variance parameter or kept an unused covariance parameter',
     58: 'create_joint_distribution changed the value of an existing parameter',
 }
 JCORR = (51, 52, 56)
-JORACLE = {53: (JCORR, 251, 'C11-CJD-COV-PARAM-MISNAMED'), 54: (JCORR, None, None), 55: (JCORR, None, None),
+JORACLE = {53: (JCORR, 251, 'C11-CJD-COV-PARAM-MISNAMED'), 59: (JCORR, None, None), 60: (JCORR, 252, 'C11-CJD-EMPTY-SELECTION-INDEXERROR'), 54: (JCORR, None, None), 55: (JCORR, None, None),
            57: (JCORR, None, None), 58: (JCORR, None, None)}
 JIMPORTS = 'Base.PyData Base.Expr C11.Model C11.NumModel C11.JdModel C11.JdCheck'
 _JD_BASE = {}
 
 
-def jd_base(kind):
-    if kind not in _JD_BASE:
-        from pharmpy.modeling import add_iiv, load_example_model
+def jd_base(kind, fix=()):
+    key = (kind, tuple(fix))
+    if key not in _JD_BASE:
+        from pharmpy.modeling import add_iiv, fix_parameters, load_example_model
         m = load_example_model('pheno')
         if kind == 'pheno_s1':
             m = add_iiv(m, ['S1'], 'exp')
-        _JD_BASE[kind] = m
-    return _JD_BASE[kind]
+        if fix:
+            m = fix_parameters(m, list(fix))
+        _JD_BASE[key] = m
+    return _JD_BASE[key]
 
 
 def gen_jd_spec(rng):
     base = rng.choice(['pheno', 'pheno_s1', 'pheno_s1'])
     etas = ['ETA_CL', 'ETA_VC'] + (['ETA_S1'] if base == 'pheno_s1' else [])
-    ops = []
+    omegas = ['IIV_CL', 'IIV_VC'] + (['IIV_S1'] if base == 'pheno_s1' else [])
+    spec = {'kind': 'jd', 'base': base, 'ops': []}
+    if rng.random() < 0.3:
+        spec['fix'] = rng.sample(omegas, rng.choice([1, 1, 2]))
+    if rng.random() < 0.4:
+        # individual estimates: random columns (sometimes one eta is missing, sometimes a constant column)
+        spec['ie'] = {'seed': rng.randrange(10 ** 6), 'drop': rng.choice([None, None, None, rng.choice(etas)]),
+                      'constant': rng.choice([None, None, None, rng.choice(etas)])}
+    # with fixed omegas only the default selection is exercised (joining a partly fixed block explicitly is
+    # refused by the NONMEM record writer, which is outside this model)
+    if 'fix' in spec or rng.random() < 0.35:
+        spec['ops'].append(['cjd_none'])
+        if rng.random() < 0.5:
+            spec['ops'].append(['split', rng.sample(etas, 1)])
+        return spec
     k = rng.choice([2, 2, len(etas), len(etas), 1])
     first = rng.sample(etas, k)
     if rng.random() < 0.5:
         first = sorted(first, key=etas.index)
-    ops.append(['cjd', first])
+    spec['ops'].append(['cjd', first])
     if rng.random() < 0.7 and k >= 2:
-        ops.append(['split', rng.sample(first, rng.choice([1, 1, len(first)]))])
+        spec['ops'].append(['split', rng.sample(first, rng.choice([1, 1, len(first)]))])
         if rng.random() < 0.5:
-            ops.append(['cjd', rng.sample(etas, len(etas))])
-    return {'kind': 'jd', 'base': base, 'ops': ops}
+            spec['ops'].append(rng.choice([['cjd', rng.sample(etas, len(etas))], ['cjd_none']]))
+    return spec
 
 
 def observe_jd(spec):
     """One jcase term per operation of the history."""
     import numpy as np
+    import pandas as pd
+    import pharmpy.internals.math as pmath
     import pharmpy.model.random_variables as rvm
     from pharmpy.model import NormalDistribution
     from pharmpy.modeling import create_joint_distribution, split_joint_distribution
-    model = jd_base(spec['base'])
+    model = jd_base(spec['base'], spec.get('fix', ()))
+    ie = None
+    if spec.get('ie'):
+        g = np.random.default_rng(spec['ie']['seed'])
+        cols = [e for e in model.random_variables.etas.names if e != spec['ie']['drop']]
+        ie = pd.DataFrame(g.normal(size=(12, len(cols))), columns=cols)
+        if spec['ie']['constant'] in cols:
+            ie[spec['ie']['constant']] = 0.5
     terms = []
     for op in spec['ops']:
         names = CNames()
@@ -1014,36 +1057,70 @@ def observe_jd(spec):
         before = model
         sq = {float(v): float(np.sqrt(v)) for v in before.parameters.inits.values() if v >= 0}
         seen = {}
+        internal = False
         try:
-            if op[0] == 'cjd':
+            if op[0] in ('cjd', 'cjd_none'):
                 orig = rvm.RandomVariables.join
 
                 def spy(self, inds, fill=0, name_template=None, param_names=None):
                     seen['pn'] = list(param_names)
-                    return orig(self, inds, fill=fill, name_template=name_template, param_names=param_names)
+                    seen['inds'] = list(inds)
+                    res = orig(self, inds, fill=fill, name_template=name_template, param_names=param_names)
+                    seen['res'] = res
+                    return res
                 rvm.RandomVariables.join = spy
                 try:
-                    after = create_joint_distribution(before, list(op[1]))
+                    after = create_joint_distribution(before, list(op[1]) if op[0] == 'cjd' else None,
+                                                      individual_estimates=ie)
                 finally:
                     rvm.RandomVariables.join = orig
                 pn = seen['pn']
             else:
                 after = split_joint_distribution(before, list(op[1]))
                 pn = None
-        except ValueError:
+        except (ValueError, KeyError, IndexError) as exc:
+            internal = isinstance(exc, IndexError)
             after = None
-            pn = (seen.get('pn') or [f'x{k}' for k in range(len(op[1]))]) if op[0] == 'cjd' else None
+            nreq = len(op[1]) if op[0] == 'cjd' else 3
+            pn = (seen.get('pn') or [f'x{k}' for k in range(nreq)]) if op[0] != 'split' else None
         if pn is not None:
             for q in pn:
                 names.get(q)
             names.register_template('IIV_{}_IIV_{}', pn)
         rb, pb = rterm(before.random_variables), pterm(before)       # registers every old name first
+        # individual-estimates branch of _choose_cov_param_init: correlation of the two etas' columns (input),
+        # and the LAPACK-dependent PSD test / repair of the covariance matrix built from it (tables)
+        ie_t, psd_t, rep_t = [], [], []
+        if ie is not None and 'res' in seen:
+            new_rvs, cov_to_params = seen['res']
+            inits = before.parameters.inits
+            for cov_name, (p1, p2) in cov_to_params.items():
+                etas = [n for n in new_rvs.names if new_rvs[n].get_variance(n).name in (p1, p2)]
+                if not all(e in ie.columns for e in etas):
+                    continue
+                corr = ie[etas].corr()
+                if corr.isnull().values.any():
+                    continue
+                sd = np.array([np.sqrt(inits[p1]), np.sqrt(inits[p2])])
+                for v in (inits[p1], inits[p2]):
+                    sq[float(v)] = float(np.sqrt(v))
+                cov = pmath.corr2cov(corr.to_numpy(), sd)
+                cov[cov == 0] = 0.0001
+                ok = bool(pmath.is_positive_semidefinite(cov))
+                rep = pmath.nearest_positive_semidefinite(cov.copy()) if not ok else cov
+                ie_t.append(ct.tup(names.p(p1), names.p(p2), qmat(corr.to_numpy())))
+                psd_t.append(ct.pair(qmat(cov), ct.boolean(ok)))
+                rep_t.append(ct.pair(qmat(cov), qmat(rep)))
         if op[0] == 'cjd':
             opt = f"(JCreate {ct.lst([names.p(x) for x in op[1]])} {ct.lst([names.p(q) for q in pn])})"
+        elif op[0] == 'cjd_none':
+            opt = f"(JCreateDefault {ct.lst([names.p(q) for q in pn])})"
         else:
             opt = f"(JSplit {ct.lst([names.p(x) for x in op[1]])})"
         out = 'None' if after is None else f"(Some {ct.pair(rterm(after.random_variables), pterm(after))})"
-        terms.append(f"(mkJCase {rb} {pb} {opt} {out} {ct.lst([ct.pair(fq(k), fq(v)) for k, v in sq.items()])})")
+        fixed = ct.lst([names.p(q.name) for q in before.parameters if q.fix])
+        terms.append(f"(mkJCase {rb} {pb} {opt} {out} {ct.lst([ct.pair(fq(k), fq(v)) for k, v in sq.items()])}\n "
+                     f"{fixed} {ct.lst(ie_t)} {ct.lst(psd_t)} {ct.lst(rep_t)} {fq(0.0001)} {ct.boolean(internal)})")
         if after is not None:
             model = after
     return terms
